@@ -120,13 +120,30 @@ def socks_unwrap(data: bytes) -> Optional[Tuple[Tuple[str, int], bytes, Tuple[in
     return (socket.inet_ntoa(ip), port), data[10:], (rsv, frag, atyp)
 
 
+MAX_UDP_PAYLOAD = 65507
+
+
 class CapSock:
-    """Stand-in for asyncio's DatagramTransport below SOCKS5UDPTransport: records sendto()."""
+    """Stand-in for asyncio's DatagramTransport below SOCKS5UDPTransport: records sendto().
+
+    Like _SelectorDatagramTransport it (a) silently discards sendto() once closed and (b) turns an OSError of the socket
+    into ``protocol.error_received(exc)`` instead of raising: a datagram above the UDP maximum is refused by the OS with
+    EMSGSIZE (recorded in ``world.refused``, never in ``world.sends``)."""
 
     def __init__(self, world: "World", assoc: int):
         self.world, self.assoc, self.closed = world, assoc, False
+        self.proto = None
 
     def sendto(self, data, addr=None):
+        if self.closed:
+            self.world.sent_after_close.append((self.assoc, len(data), addr))
+            return
+        if len(data) > MAX_UDP_PAYLOAD:
+            import errno
+            self.world.refused.append((self.assoc, len(data), addr))
+            if self.proto is not None:
+                self.proto.error_received(OSError(errno.EMSGSIZE, "Message too long"))
+            return
         self.world.sends.append((self.assoc, bytes(data), addr))
 
     def close(self):
@@ -147,6 +164,8 @@ class World:
         self.sessions: List[Any] = []
         self.protos: List[InterceptingLLUDPProxyProtocol] = []
         self.sends: List[Tuple[int, bytes, Any]] = []
+        self.refused: List[Tuple[int, int, Any]] = []          # sendto() the OS refused (EMSGSIZE): (assoc, size, addr)
+        self.sent_after_close: List[Tuple[int, int, Any]] = []  # sendto() on a closed transport (discarded)
         self.escaped: List[str] = []          # exception type names that escaped datagram_received
         self.violations: List[Dict[str, Any]] = []
         self.circuit_objs: List[Any] = []     # circuits in creation order (identity -> small index for snapshots)
@@ -165,6 +184,18 @@ class World:
             self.escaped.append(type(e).__name__)
         self.loop.run_ready()
         return self.sends[before:], exc
+
+    def os_error(self, assoc: int, exc: OSError):
+        """The OS reports an error on the association's socket: asyncio calls protocol.error_received(exc)."""
+        before = len(self.sends)
+        raised = None
+        try:
+            self.protos[assoc].error_received(exc)
+        except Exception as e:  # noqa
+            raised = e
+            self.escaped.append(type(e).__name__)
+        self.loop.run_ready()
+        return self.sends[before:], raised
 
     def region(self, i: int, j: int):
         for r in self.sessions[i].regions:
@@ -205,8 +236,9 @@ class World:
         which = None
         if p.session is not None:
             which = next((k for k, x in enumerate(self.sessions) if x is p.session), "foreign")
+        sock = getattr(p.transport, "transport", None)
         return (bool(s.pending), which, tuple(regs), main.circuit_addr if main is not None else None,
-                str(s.active_group), len(self.sm.sessions))
+                str(s.active_group), len(self.sm.sessions), bool(getattr(sock, "closed", False)), bool(p.resend_task.done()))
 
     def learned(self, i: int):
         return tuple(sorted(((repr(k), v) for k, v in self.protos[i].far_to_near_map.items())))
@@ -283,7 +315,9 @@ def fresh(n_sessions: int = 2, addons: Optional[List[Any]] = None, neighbour: bo
                               handle=((1001 + i) << 32) | 1000)
         w.sessions.append(s)
         p = InterceptingLLUDPProxyProtocol(TCP_PEERS[i], w.sm)
-        p.connection_made(CapSock(w, i))
+        sock = CapSock(w, i)
+        p.connection_made(sock)
+        sock.proto = p
         w.protos.append(p)
     w.loop.run_ready()
     _LAST = w
